@@ -179,7 +179,7 @@ type tccWithCtxVal struct {
 }
 
 type tccParamSpec struct {
-	Kind string          `json:"kind"` // nil tagged tagged_ptr nested ctx_ptr ctx_ptr_nil ctx_val bac bac_ptr bac_ptr_nil int string map
+	Kind string          `json:"kind"` // nil tagged tagged_ptr nested ctx_ptr ctx_ptr_nil ctx_val bac bac_ptr bac_ptr_nil int string map anon_ab anon_fba local_1 local_2
 	A    int64           `json:"a"`
 	B    string          `json:"b"`
 	C    float64         `json:"c"`
@@ -227,6 +227,23 @@ func (p *tccParamSpec) build() interface{} {
 	case "bac_ptr_nil":
 		var b *tm.BusinessActionContext
 		return b
+	case "anon_ab":
+		// anonymous struct types: no type name at all
+		return struct {
+			A int64  `tccParam:"a"`
+			B string `tccParam:"b"`
+		}{p.A, p.B}
+	case "anon_fba":
+		return &struct {
+			F bool   `tccParam:"f"`
+			B string `tccParam:"note"`
+			X string
+			A int64 `tccParam:"amount"`
+		}{p.F, p.B, "untagged", p.A}
+	case "local_1":
+		return tccLocalRequest1(p)
+	case "local_2":
+		return tccLocalRequest2(p)
 	case "int":
 		return int(p.A)
 	case "string":
@@ -235,6 +252,24 @@ func (p *tccParamSpec) build() interface{} {
 		return map[string]interface{}{"a": p.A, "b": p.B}
 	}
 	return nil
+}
+
+// two function-local types that share their name (and package path) but not their layout
+func tccLocalRequest1(p *tccParamSpec) interface{} {
+	type request struct {
+		Amount int64  `tccParam:"amount"`
+		Target string `tccParam:"target"`
+	}
+	return request{Amount: p.A, Target: p.B}
+}
+
+func tccLocalRequest2(p *tccParamSpec) interface{} {
+	type request struct {
+		Memo    string `tccParam:"memo"`
+		Flag    bool   `tccParam:"flag"`
+		Account int64  `tccParam:"account"`
+	}
+	return &request{Memo: p.B, Flag: p.F, Account: p.A}
 }
 
 func tccProxy(name string) (*tcc.TCCServiceProxy, error) {
